@@ -31,6 +31,14 @@ QUERYD = ("query", "disk", 10, 100, 30, 60)
 RESUME = ("resume", "mem", 25, 250, 40, 80)
 RESUMED = ("resume", "disk", 8, 80, 40, 80)
 
+LIFE = ("life", "mem", 40, 600, 10, 14)
+LIFED = ("life", "disk", 25, 300, 10, 14)
+
+
+def proj_life(op, res):
+    return "" if op.startswith("mkcoll") else res
+
+
 ROW = ["row", "row.v", "row.cas", "row.exp", "row.json", "row.x", "row.tomb", "row.rev"]
 
 PROPS = {
@@ -82,6 +90,10 @@ PROPS = {
                 proj=P(rb=ROW, ev="*", results=True, ops={"feed", "stopfeed"}),
                 what="a checkpointed resume-mode feed stopped (terminator) and restarted (live and dump runs) between batches of writes; the "
                      "checkpoint document read after every stop; the union of all runs against the final documents"),
+    "C16": dict(modules=["Rosmar.Properties.C16"], slices=[LIFE, LIFED], proj=proj_life,
+                what="feeds (live, dump) started through up to three handles on three collections; random orders of terminator closes, "
+                     "collection drops (through any handle), handle closes, bucket deletion; after every event the done state of every feed, "
+                     "callbacks after done, and probes that surviving feeds still receive events"),
     "C17": dict(modules=["Rosmar.Properties.C17"], slices=[KV, FEEDS, MULTI],
                 proj=P(rb=["row", "row.rev", "gwx"], ev=["k", "rev", "cas"], results=False),
                 what="revSeqNo in the row, $document / $document.revid, live and backfill RevNo"),
